@@ -16,6 +16,7 @@ func setPlaceholderNames(n *ast.MsgNode) {
 	var (
 		baseNameToRepNodes  = make(map[string][]ast.Node)
 		equivNodeToRepNodes = make(map[ast.Node]ast.Node)
+		baseNames           []string // keys of baseNameToRepNodes in first-seen order
 	)
 
 	var nodeQueue []ast.Node = phNodes(n.Body)
@@ -36,6 +37,7 @@ func setPlaceholderNames(n *ast.MsgNode) {
 
 		if nodes, ok := baseNameToRepNodes[baseName]; !ok {
 			baseNameToRepNodes[baseName] = []ast.Node{node}
+			baseNames = append(baseNames, baseName)
 		} else {
 			var isNew = true
 			var str = node.String()
@@ -54,7 +56,8 @@ func setPlaceholderNames(n *ast.MsgNode) {
 
 	// Step 2: Build final maps of name to representative node
 	var nameToRepNodes = make(map[string]ast.Node)
-	for baseName, nodes := range baseNameToRepNodes {
+	for _, baseName := range baseNames {
+		var nodes = baseNameToRepNodes[baseName]
 		if len(nodes) == 1 {
 			nameToRepNodes[baseName] = nodes[0]
 			continue
